@@ -1,7 +1,7 @@
-\* thorough: stateless mode, three ephemeral sessions
-SPECIFICATION MCSpec
+\* thorough (-coverage 1): stateless mode, two ephemeral sessions, every fault
+SPECIFICATION Spec
 CONSTANTS
-  Calls = {"k1", "k2", "k3"}
+  Calls = {"k1", "k2"}
   CCl = {"c1"}
   SCl = {}
   Stateless = TRUE
@@ -15,6 +15,5 @@ CONSTANTS
   Cancels = FALSE
   AwaitHandlers = TRUE
   StopSseOnClose = TRUE
-VIEW MCView
 INVARIANTS TypeOK NothingDispatchedAfterClose RunningHandlersFinish SessionRemoved
 CHECK_DEADLOCK FALSE
